@@ -160,6 +160,9 @@ func (a *agg) add(prop, mode string, idx int, rep *RunReport) {
 		}
 		if v.Prop != prop {
 			a.foreign[v.Prop+" "+v.Oracle]++
+			if os.Getenv("SIM_FOREIGN") != "" && a.foreign[v.Prop+" "+v.Oracle] <= 2 {
+				fmt.Printf("foreign: %s\n", oneLine(v.String(), 700))
+			}
 			continue
 		}
 		k := coarseSig(v)
@@ -335,13 +338,15 @@ func saveReplay(prop string, sc *Scenario) string {
 
 func confirmReplay(path string) bool {
 	self, _ := os.Executable()
-	cmd := exec.Command(self, "replay", "--quiet", "--nobuild", path)
-	out, err := cmd.CombinedOutput()
-	if err == nil {
-		return false // exit 0: did not reproduce
-	}
-	if ee, ok := err.(*exec.ExitError); ok && ee.ExitCode() == 1 {
-		return strings.Contains(string(out), "REPRODUCED")
+	// up to three attempts: violations that depend on the simulated process's
+	// own hash-seed (a nondeterministic read is exactly that) reproduce with
+	// high but not full probability per attempt
+	for attempt := 0; attempt < 3; attempt++ {
+		cmd := exec.Command(self, "replay", "--quiet", "--nobuild", path)
+		out, err := cmd.CombinedOutput()
+		if ee, ok := err.(*exec.ExitError); ok && ee.ExitCode() == 1 && strings.Contains(string(out), "REPRODUCED") {
+			return true
+		}
 	}
 	return false
 }
